@@ -187,6 +187,12 @@ struct Config {
 }
 
 fn run_child(h: &serde_json::Value, cfg: &Config, stub: &Stub, bucket: &str, dir: &str) -> Option<serde_json::Value> {
+    run_child_rw(h, cfg, None, stub, bucket, dir)
+}
+
+/// `read_write`: the node reads its data with one strategy at start-up and writes its snapshots with another
+/// (NUN_STORAGE_READ_STRATEGY / NUN_STORAGE_WRITE_STRATEGY: how an existing node is moved to or from a bucket).
+fn run_child_rw(h: &serde_json::Value, cfg: &Config, read_write: Option<(&str, &str)>, stub: &Stub, bucket: &str, dir: &str) -> Option<serde_json::Value> {
     if let Some((what, n, mode)) = cfg.fault {
         let body = if what == "put" { json!({"fail_put_nth": n, "fail_put_mode": mode, "fail_put_status": cfg.put_fault_shape.0, "fail_put_count": cfg.put_fault_shape.1}) } else { json!({"fail_get_nth": n, "fail_get_status": cfg.put_fault_shape.0, "fail_get_count": cfg.put_fault_shape.1}) };
         stub.http("POST", &format!("/__control/{}", bucket), &body.to_string());
@@ -194,7 +200,11 @@ fn run_child(h: &serde_json::Value, cfg: &Config, stub: &Stub, bucket: &str, dir
         stub.http("POST", &format!("/__control/{}", bucket), "{}");
     }
     let exe = std::env::current_exe().unwrap();
-    let out = std::process::Command::new(exe)
+    let mut cmd = std::process::Command::new(exe);
+    if let Some((r, w)) = read_write {
+        cmd.env("NUN_STORAGE_READ_STRATEGY", r).env("NUN_STORAGE_WRITE_STRATEGY", w);
+    }
+    let out = cmd
         .args(["c18-child", "x", &h.to_string(), dir])
         .env("NUN_STORAGE_STRATEGY", cfg.strategy)
         .env("NUN_S3_API_URL", format!("http://127.0.0.1:{}", stub.port))
@@ -538,8 +548,58 @@ pub fn run(tier: &str) -> i32 {
             }
         }
     }
+    // moving an existing node to a bucket (and back): process 1 runs with one strategy and snapshots; process 2 reads with
+    // that strategy and writes with the other one (NUN_STORAGE_READ_STRATEGY / NUN_STORAGE_WRITE_STRATEGY), changes a few
+    // keys and takes a complete snapshot; process 3 runs with the new strategy only and must hold what process 2 held
+    let mut migration_cases = 0u64;
+    {
+        let mut plans: Vec<(&str, &str, u64, usize)> = vec![("disk", "s3_patition", 3, 40), ("disk", "s3", 10, 40), ("s3_patition", "disk", 3, 40), ("s3", "disk", 10, 30)];
+        if thorough {
+            plans.extend([("disk", "s3_patition", 10, 200), ("disk", "s3_patition", 1, 25), ("s3", "s3_patition", 3, 60), ("s3_patition", "s3", 10, 60), ("s3_patition", "disk", 10, 150)]);
+        }
+        for (ci, (from, to, parts, nkeys)) in plans.iter().enumerate() {
+            let bucket = format!("mig{}", ci);
+            let dbs = json!([["one", "none"], ["two", "newer"]]);
+            let mut ops: Vec<serde_json::Value> = (0..*nkeys).map(|i| json!(["set", 0, format!("key-{}", i), (i + ci) % 6])).collect();
+            ops.push(json!(["set", 1, "other", 1]));
+            ops.push(json!(["remove", 0, "key-7"]));
+            ops.push(json!(["snap", [0, 1], false]));
+            ops.push(json!(["declutter"]));
+            let cfg_from = Config { strategy: if *from == "disk" { "disk" } else if *from == "s3" { "s3" } else { "s3_patition" }, partitions: *parts, fault: None, put_fault_shape: (500, 1) };
+            let cfg_to = Config { strategy: if *to == "disk" { "disk" } else if *to == "s3" { "s3" } else { "s3_patition" }, partitions: *parts, fault: None, put_fault_shape: (500, 1) };
+            // the data directory is the node's own: it stays for processes 1 and 2 (and 3 when the target is the disk)
+            let d = fresh_dir("c18-mig");
+            let first = run_child(&json!({"dbs": dbs, "ops": ops}), &cfg_from, &stub, &bucket, &d);
+            let second = run_child_rw(&json!({"dbs": dbs, "ops": [["image"], ["set", 0, "key-1", 3], ["remove", 0, "key-2"], ["set", 0, "brand-new", 2], ["inc", 0, "count"], ["snap", [0, 1], true], ["declutter"]]}), &cfg_from, Some((from, to)), &stub, &bucket, &d);
+            let d3 = if *to == "disk" { d.clone() } else { fresh_dir("c18-mig3") };
+            let third = run_child(&json!({"dbs": dbs, "ops": [["image"]]}), &cfg_to, &stub, &bucket, &d3);
+            let _ = std::fs::remove_dir_all(&d);
+            let _ = std::fs::remove_dir_all(&d3);
+            let (Some(first), Some(second), Some(third)) = (first, second, third) else {
+                v.inconclusive("migration run produced no result");
+                continue;
+            };
+            let ev_of = |doc: &serde_json::Value, name: &str| doc["events"].as_array().unwrap().iter().find(|e| e["event"] == name).map(|e| e["image"].clone());
+            let (Some(snap1), Some(load2), Some(snap2), Some(load3)) = (ev_of(&first, "snapshot-completed"), ev_of(&second, "restart"), ev_of(&second, "snapshot-completed"), ev_of(&third, "restart")) else {
+                let failed = [&first, &second, &third].iter().flat_map(|d| d["events"].as_array().unwrap().iter()).find(|e| e["event"] == "snapshot-reported-failure" || e["event"] == "restart-failed").cloned();
+                match failed {
+                    Some(f) => { v.report(json!({"check": "s3", "strategy": to, "problem": format!("{}", f["event"].as_str().unwrap_or("")), "context": format!("node-moved-from-{}-to-{}", from, to)}), json!({"event": f})); }
+                    None => v.inconclusive("migration run: an event is missing"),
+                }
+                continue;
+            };
+            migration_cases += 1;
+            for (stage, want, got) in [("start-of-the-process-that-reads-the-old-storage", &snap1, &load2), ("start-on-the-new-storage", &snap2, &load3)] {
+                for (p, dd) in diff(want, got).into_iter().filter(|x| x.0 != "database-id-or-strategy-differs") {
+                    v.report(json!({"check": "s3", "strategy": to, "problem": p, "context": format!("node-moved-from-{}-to-{}/{}", from, to, stage)}),
+                        json!({"partitions": parts, "keys": nkeys, "detail": dd, "snapshotted": want, "restored": got}));
+                }
+            }
+        }
+    }
+    ev.set("nodes_moved_between_storage_strategies", json!(migration_cases));
     let s = st.into_inner().unwrap();
-    ev.evaluations = s.runs + 2 * repartition_cases + 3 * process_chain_cases;
+    ev.evaluations = s.runs + 2 * repartition_cases + 3 * process_chain_cases + 3 * migration_cases;
     ev.set("restarts_with_another_number_of_partitions", json!(repartition_cases));
     ev.set("chains_of_three_processes_snapshot_load_incremental_snapshot_load", json!(process_chain_cases));
     ev.distinct_nontrivial = s.shapes.len() as u64;
